@@ -453,6 +453,8 @@ def check(ctx: Ctx) -> None:
     check_r18_2(ctx)
     check_r18_3(ctx)
     check_r18_4(ctx)
+    from . import _extra
+    _extra.check_presence_probe(ctx, 'R18.4')
 
 
 SPEC = PropSpec(
